@@ -1,6 +1,10 @@
 mod engine;
 mod refcodec;
 mod c04;
+mod host;
+mod c16;
+mod c16wire;
+mod c18;
 
 use engine::Ctx;
 
@@ -47,6 +51,10 @@ fn main() {
     let code = match (prop.as_str(), &replay) {
         ("C04", None) => c04::run(&ctx),
         ("C04", Some(p)) => c04::replay(&ctx, p),
+        ("C18", None) => c18::run(&ctx),
+        ("C18", Some(p)) => c18::replay(&ctx, p),
+        ("C16", None) => c16::run(&ctx),
+        ("C16", Some(p)) => c16::replay(&ctx, p),
         _ => {
             eprintln!("unknown property {}", prop);
             2
